@@ -66,6 +66,9 @@ Next ==
 \* after an HSL or fractional-opacity write col holds the colour BEFORE the write and note names the leeway
 \* (8-bit rounding); the harness checks the relation and the history stops there
 
+\* simulation mode: long accessor histories (every successor of every visited state is emitted from length 4 on)
+InitAcc == mode = "acc" /\ arg \in Starts /\ col = arg /\ hist = <<>> /\ note = "" /\ hslv = ToHsl(col)
+Emit == Len(hist) >= 4 => PrintT(<<"CASE", arg, col, hist, note, hslv>>)
 \* ---- the specification's own laws -------------------------------------------
 HexRoundTrip == (mode = "hex" /\ Len(arg) = 8) =>
    LET H(v) == <<CHOOSE c \in HexDigits : HexVal(c) = v \div 16, CHOOSE c \in HexDigits : HexVal(c) = v % 16>> IN
